@@ -318,6 +318,22 @@ def isValidationOf (stored call : Header) : Bool :=
   Header.values call sIfNoneMatch = own (Header.get stored sETag) &&
   Header.values call sIfModifiedSince = own (Header.get stored sLastModified)
 
+/-- the q-value classes (Accept, Accept-Charset, Accept-Language, Accept-Encoding, TE): what a cache makes of
+    weights, parameters and wildcards is its own business (glue), but for a value that is a list of PLAIN
+    tokens — no ";", no "*", no "=" — equivalence is decided by RFC 9110 alone: member order, optional
+    white space and repetition do not matter, "x-gzip" is "gzip" and "x-compress" is "compress" (§8.4.1)
+    as whole members; nothing else is equal. `none` = not a plain list (no judgement). -/
+def qPlainCanon (v : Option Str) : Option Str :=
+  match v with
+  | none => some []
+  | some v =>
+    let ms := ((splitList v false []).map trimOWS).filter (!·.isEmpty)
+    let plain (m : Str) : Bool := m.all fun c => isAlpha c || isDigit c || c = '-' || c = '.' || c = '_' || c = '/' || c = '+'
+    if !ms.all plain then none
+    else
+      let alias (m : Str) : Str := if m = (str% "x-gzip") then (str% "gzip") else if m = (str% "x-compress") then (str% "compress") else m
+      some (joinWith [','] (sortStrs ((ms.map alias).eraseDups)))
+
 /-- 304 freshening (RFC 9111 §4.3.4 / §3.2): every field of the 304 except hop-by-hop fields,
     the fields its Connection names and Content-Length replaces the stored field; a stored Age is
     dropped (the age restarts from the 304) -/
